@@ -232,7 +232,14 @@ impl Prop for C15 {
                     } else {
                         must_reject = true;
                     }
-                    format!("{} {}", n, body)
+                    // the number may be preceded by blanks / tabs and need not be followed by a blank
+                    match rng.usize(8) {
+                        0 => format!("  {} {}", n, body),
+                        1 => format!("\t{} {}", n, body),
+                        2 => format!("{}{}", n, body),
+                        3 => format!(" \t {}{}", n, body),
+                        _ => format!("{} {}", n, body),
+                    }
                 }
                 4 => {
                     let n = pick_num(rng, small);
@@ -291,7 +298,24 @@ impl Prop for C15 {
             ctx.add("list_lines_observed", listed.len() as u64);
             let got = s.listing_text();
             let want: Vec<String> = model.values().cloned().collect();
-            let sig_form = format!("{} {}", c.split(' ').next().unwrap_or(""), shape(c.split(' ').nth(1).unwrap_or("")));
+            let sig_form = format!("{} {}", c.trim_start().split(' ').next().unwrap_or("").trim_start_matches(|ch: char| ch.is_ascii_digit()), shape(c.trim_start().split(' ').nth(1).unwrap_or("")));
+            // the snapshot's single-line lookup (what the editor's TAB completion uses)
+            {
+                let snap = s.rt.get_listing();
+                let probe = pick_num(rng, small) as usize;
+                let got_line = snap.line(probe).map(|(t, _)| t);
+                let want_line = if probe <= 65529 { model.get(&(probe as u32)).cloned() } else { None };
+                ctx.count("single_line_lookups");
+                if got_line != want_line {
+                    ctx.violation(
+                        "line-lookup",
+                        "store:line-lookup",
+                        &format!("after {:?} get_listing().line({}) is {:?}, the model has {:?}", c, probe, got_line, want_line),
+                        &script.join("\n"),
+                    );
+                    return;
+                }
+            }
             if got != want {
                 ctx.violation(
                     "store-diverged",
@@ -337,6 +361,74 @@ impl Prop for C15 {
                     &script.join("\n"),
                 );
                 return;
+            }
+        }
+        // LIST as a statement of the program: it lists, then the program goes on; interrupted in the middle
+        // and continued it lists the rest
+        if model.len() >= 2 && rng.chance(1, 3) {
+            let host = 65000u32;
+            if !model.contains_key(&host) && model.keys().all(|k| *k < host) {
+                let (t, r) = range_operand(rng, small, false);
+                if let Some((a, b)) = r {
+                    let line = format!("{} LIST {}:PRINT \"DONE\":END", host, t).replace("LIST :", "LIST:");
+                    model.insert(host, line.clone());
+                    s.enter(&line);
+                    s.drain(16);
+                    script.push(line.clone());
+                    let listed_line = s.listing_text().last().cloned().unwrap_or_default();
+                    model.insert(host, listed_line);
+                    let exp: Vec<String> = model.range(a..=b).map(|(_, v)| v.clone()).collect();
+                    let cut = if exp.len() >= 2 { 1 + rng.usize(exp.len() - 1) } else { usize::MAX };
+                    script.push(format!("RUN {}  (interrupt after {} listed lines, then CONT)", host, cut));
+                    mon::journal(&script.join("\n"));
+                    let mark = s.mark();
+                    s.enter(&format!("RUN {}", host));
+                    let mut seen = 0usize;
+                    let mut interrupted = false;
+                    let mut stopped = false;
+                    for _ in 0..100_000 {
+                        match s.step_q(1) {
+                            Some(Stop::Stopped) => {
+                                if interrupted && seen <= cut {
+                                    // the break: continue
+                                    interrupted = false;
+                                    seen = usize::MAX / 2;
+                                    s.enter("CONT");
+                                    continue;
+                                }
+                                stopped = true;
+                                break;
+                            }
+                            Some(_) => break,
+                            None => {}
+                        }
+                        let n_listed = s.events_since(mark).iter().filter(|e| matches!(e, Ev::List(..))).count();
+                        if n_listed == cut && seen < cut {
+                            seen = cut;
+                            interrupted = true;
+                            s.interrupt();
+                        }
+                    }
+                    let evs = s.events_since(mark).to_vec();
+                    let listed: Vec<String> = evs.iter().filter_map(|e| if let Ev::List(l, _) = e { Some(l.clone()) } else { None }).collect();
+                    let done = evs.iter().any(|e| matches!(e, Ev::Print(p) if p.contains("DONE")));
+                    ctx.count("in_program_lists");
+                    if cut != usize::MAX {
+                        ctx.count("in_program_lists_interrupted_and_continued");
+                    }
+                    if !stopped || listed != exp || !done {
+                        ctx.violation(
+                            "program-list",
+                            "list:in-program",
+                            &format!(
+                                "LIST {} inside the program (interrupted after {} lines and continued): stopped={} listed {:?}, expected {:?}, DONE printed: {}",
+                                t, cut, stopped, listed, exp, done
+                            ),
+                            &script.join("\n"),
+                        );
+                        return;
+                    }
+                }
             }
         }
         let text = script.join("\n");
